@@ -618,6 +618,10 @@ func (g *fastGenerator) decodeFixed32(varName string, typeName string) {
 }
 
 func (g *fastGenerator) decodeMessage(varName, buf string, message *protogen.Message) {
+	// nesting deeper than the recursion budget is rejected, not followed
+	g.P("if options.RecursionLimit < 0 {")
+	g.P(`return `, protoifacePkg.Ident("UnmarshalOutput"), "{NoUnkeyedLiterals: input.NoUnkeyedLiterals, Flags: input.Flags},", runtimePackage.Ident("ErrRecursionDepth"))
+	g.P(`}`)
 
 	g.P("if err := options.Unmarshal(", buf, ", ", varName, "); err != nil {")
 	g.P(`return `, protoifacePkg.Ident("UnmarshalOutput"), "{NoUnkeyedLiterals: input.NoUnkeyedLiterals, Flags: input.Flags},", `err`)
